@@ -84,6 +84,7 @@ type stlCue struct {
 	Rows     [][]stlRun // expected runs per row (rows without runs do not produce a line)
 	NRows    int        // number of rows in the text field (STLPosition.Rows)
 	tf       []byte     // reader direction: the encoded text field
+	ebn      byte       // reader direction: extension block number to use when not 0 (0x01: more blocks follow, 0xff: last)
 	start    int64      // writer direction: ns
 	end      int64
 }
@@ -541,6 +542,18 @@ func stlGenModel(r *fw.Rand, enumerate [][]byte) stlModel {
 			m.order = append(m.order, -1) // a user-data block
 		}
 	}
+	if enumerate == nil && m.G.DSC == "0" && r.P(1, 10) {
+		// a subtitle too long for one text field, continued in an extension block, and the field ends between a
+		// floating diacritic and its letter: the letter at the head of the next block carries the diacritic
+		tci, tco := stlGenTC(r, m.G.FPS, minH), stlGenTC(r, m.G.FPS, minH)
+		head := strings.Repeat("abcdefghij ", 10) + "x" // 111 characters
+		a := stlCue{TCI: tci, TCO: tco, VP: 20, JC: 2, tf: append([]byte(head), 0xc2), ebn: 0x01, NRows: 1, Rows: [][]stlRun{{{Text: head}}}}
+		bq := stlCue{TCI: tci, TCO: tco, VP: 20, JC: 2, tf: []byte("ecole"), ebn: 0xff, NRows: 1, Rows: [][]stlRun{{{Text: "\u00e9cole"}}}}
+		for _, c := range []stlCue{a, bq} {
+			m.order = append(m.order, len(m.Cues))
+			m.Cues = append(m.Cues, c)
+		}
+	}
 	if enumerate == nil && r.P(1, 5) {
 		m.order = append([]int{-1}, m.order...)
 	}
@@ -561,7 +574,11 @@ func stlEncodeDoc(m stlModel, r *fw.Rand) []byte {
 		}
 		c := m.Cues[k]
 		// extension block number: 0xFF (last block of a subtitle) or any other value but 0xFE (user data): each is one cue
-		blk = append(blk, byte(r.Intn(3)), byte(sn+1), byte((sn+1)>>8), fw.Pick(r, []byte{0xff, 0xff, 0xff, 0x00, 0x01, 0xef, 0xfd}), byte(r.Intn(4)))
+		ebn := fw.Pick(r, []byte{0xff, 0xff, 0xff, 0x00, 0x01, 0xef, 0xfd})
+		if c.ebn != 0 {
+			ebn = c.ebn
+		}
+		blk = append(blk, byte(r.Intn(3)), byte(sn+1), byte((sn+1)>>8), ebn, byte(r.Intn(4)))
 		blk = append(blk, c.TCI[:]...)
 		blk = append(blk, c.TCO[:]...)
 		blk = append(blk, c.VP, c.JC, byte(r.Intn(2)))
